@@ -194,8 +194,7 @@ def run_item(item):
         item.paths += 1
         k = int(kind[6:])
         idx = [z3.BitVec("i%d" % j, 8) for j in range(k)]
-        for v in idx:
-            item.inputs[str(v)] = v
+        item.declare(*idx)
         tab = z3.Array("T", z3.BitVecSort(8), z3.BitVecSort(24))
         tabdef = [tab[i] == T[i] for i in range(n)]
         order = [z3.ULT(idx[j], idx[j + 1]) for j in range(k - 1)] + [z3.ULT(idx[-1], n)]
@@ -248,14 +247,3 @@ def _replay_zero(msg, what):
         what, msg, r[1:])
 
 
-def replay(rec):
-    inp = rec["inputs"]
-    if "valid_frame" in inp:
-        ok, _, d = _replay_zero(inp["msg"], rec["label"])
-        return ok, d
-    if "msg" in inp:
-        n = len(inp["msg"]) * 4
-        r = H.real_call("pyModeS.common.crc", inp["msg"])
-        want = S.rem_int(int(inp["msg"], 16), n)
-        return (r[0] != "ret" or r[1] != want), "crc(%s)=%r, remainder mod 0x1FFF409 = %d" % (inp["msg"], r[1:], want)
-    return False, "replay record not understood"
